@@ -135,6 +135,35 @@ func runC05(c *ctx) {
 			c.sample(map[string]interface{}{"program": prog, "history": history})
 		}
 	}
+	// process-wide function objects: a built-in that takes its first argument from the context is one object shared by all
+	// evaluations.  A call written in an unusual form (parenthesised or conditional callee, callee picked from an array,
+	// through a variable) must not leave its context behind for a later use of the same built-in that reaches it without a
+	// direct call (chain onto the bare function, partial application, the function passed as a value).
+	{
+		type cf struct{ fn, extra string }
+		fns := []cf{{"$substringBefore", "\"-\""}, {"$substringAfter", "\"-\""}, {"$contains", "\"-\""}, {"$split", "\"-\""}, {"$pad", "9"}, {"$substring", "1"}, {"$join", "\"-\""}, {"$round", "1"}, {"$formatBase", "2"}, {"$lookup", "\"s\""}}
+		for rep := 0; rep < c.scale(3, 20); rep++ {
+			for _, f := range fns {
+				readers := []string{f.extra + " ~> " + f.fn, f.fn + "(?)(" + f.extra + ")", "$map([" + f.extra + "], " + f.fn + ")", "[" + f.extra + "] ~> $map(" + f.fn + ")", "(" + f.extra + " ~> " + f.fn + ")", "s.(" + f.extra + " ~> " + f.fn + ")"}
+				writers := []string{"s.((" + f.fn + ")(" + f.extra + "))", "s.((true ? " + f.fn + " : $nope)(" + f.extra + "))", "s.([" + f.fn + "][0](" + f.extra + "))", "s.($g := " + f.fn + "; $g(" + f.extra + "))", "s." + f.fn + "(" + f.extra + ")", "s.(" + f.fn + "(" + f.extra + "))",
+					"s.(" + f.fn + " ~> $string)(" + f.extra + ")", "s.(function(){" + f.fn + "})()(" + f.extra + ")", "s.$map([1], function($i){(" + f.fn + ")(" + f.extra + ")})"}
+				for _, rd := range readers {
+					for _, wr := range writers {
+						docR := map[string]interface{}{"s": fmt.Sprintf("r%d-x%d", rep, r.intn(1000))}
+						docW := map[string]interface{}{"s": fmt.Sprintf("w%d-y%d", rep, r.intn(1000))}
+						before := goEval(rd, docR)
+						goEval(wr, docW)
+						after := goEval(rd, docR)
+						c.note("shared-fn\x00"+rd+"\x00"+wr, "shared-function-object", true)
+						if before.outcome != after.outcome {
+							c.disagree(Disagreement{Kind: "history-dependent-outcome", Prog: rd, Input: docR, InputS: valueSexp(docR), History: []string{"Eval -> " + trunc(before.outcome, 80), "another Expr: " + wr + " on " + fmt.Sprint(docW), "Eval -> " + trunc(after.outcome, 80)},
+								Go: after.outcome, Model: "the outcome before the other evaluation: " + before.outcome})
+						}
+					}
+				}
+			}
+		}
+	}
 	// process-wide state keyed by an argument (a cache of parsed pictures, patterns, formats ...): the same call with other
 	// values in between.  A freshly compiled Expr would share such state, so the reference here is the first outcome seen
 	// for the same (program, input) and the Lean model (which has no state at all).
